@@ -354,7 +354,7 @@ func c17Gen(rng *gen.Rng, population string) *c17Hist {
 			burst--
 			p = burstPath
 		}
-		render := rng.Pick([]string{"top", "direct", "direct", "direct", "funcparam", "funcglobal", "funcdirect", "nested", "nested", "if", "ifdirect", "for", "fordirect", "shared", "shared", "unused", "elsedirect", "scopes", "reexec", "paramglobal", "untilexists", "nottaken", "multiret", "globalupdate", "afterchain", "flagafter", "loopswitch", "loopcall"})
+		render := rng.Pick([]string{"top", "direct", "direct", "direct", "funcparam", "funcglobal", "funcdirect", "nested", "nested", "if", "ifdirect", "for", "fordirect", "shared", "shared", "unused", "elsedirect", "scopes", "reexec", "paramglobal", "untilexists", "nottaken", "multiret", "globalupdate", "afterchain", "flagafter", "loopswitch", "loopcall", "rangeread"})
 		if inBurst {
 			render = rng.Pick([]string{"direct", "direct", "top"})
 		}
@@ -1093,6 +1093,9 @@ func (h *c17Hist) render(seed uint64) []*c17Segment {
 			loopN = 1
 			cur.OpIdx = append(cur.OpIdx, i)
 		case "read":
+			if op.Render == "rangeread" && len(m.Files[op.Path]) > 160 {
+				op.Render = "direct" // (the emitted character loop costs a sub-shell per character: long contents would only measure that)
+			}
 			var pre strings.Builder
 			pe := operand(id, "p", op.POrigin, op.spelled(), &pre)
 			pn := fmt.Sprintf("rp%d", id)
@@ -1172,6 +1175,11 @@ func (h *c17Hist) render(seed uint64) []*c17Segment {
 				nm := rng.Pick([]string{"tmpv", "scratch", "acc", "cur", "buf", "line0"}) // (no theme and no generated identifier uses these: a block variable may not shadow a global)
 				fmt.Fprintf(&sb, "func fn%d(a%d string) string {\n%s := a%d + \"!\"\nreturn %s\n}\nvar rr%d string\nif true {\n%s := %s\nk%d := fn%d(\"k\")\nrr%d = read(%s)\nprint(\"<<N>>\" + k%d)\n}\n",
 					id, id, nm, id, nm, id, nm, pe, id, id, id, nm, id)
+			case "rangeread":
+				// the result is consumed character by character by a range loop whose body calls a
+				// function with two results; what the loop collects is the content
+				fmt.Fprintf(&sb, "func tw%d(c%d string) (string, string) {\nreturn c%d, \"x\"\n}\nrr%d := \"\"\nfor ri%d, rc%d := range read(%s) {\nra%d, rb%d := tw%d(rc%d)\nrr%d = rr%d + ra%d\nif ri%d < 0 {\nprint(rb%d)\n}\n}\n",
+					id, id, id, id, id, id, pe, id, id, id, id, id, id, id, id, id)
 			case "shared":
 				usesShared = true
 				fmt.Fprintf(&sb, "rr%d := shr(%s)\n", id, pe)
